@@ -87,7 +87,13 @@ def run_case(cfg):
                       word_bytes, cfg["cs"].get("bank_byte_alignment", 0))
     addrs = addresses(amap.aw, r, cfg["workload"]["n_rand"])
     cfg["workload"]["ops"] = [[(0 if r.random() < 0.8 else r.randint(1, 4), int(r.random() < 0.5), a) for a in addrs]]
-    tr = W.run_case(cfg)
+    try:
+        tr = W.run_case(cfg)
+    except W.PortGeometryMismatch as e:
+        # onto / one-to-one cannot hold when the port's address space is not the size of the device
+        return dict(verdict="violated", nontrivial=True, stats={}, signature="geometry-mismatch",
+                    violations=[dict(kind="port-address-space-differs-from-device", port_address_bits=e.got_aw, device_needs_bits=e.expected_aw,
+                                     memtype=mem["memtype"], nphases=mem["nphases"], geometry=[mem["bankbits"], mem["rowbits"], mem["colbits"]])])
     cfg["workload"].pop("ops", None)
     if tr.reason == "wall":
         return dict(verdict="inconclusive", why="wall-clock watchdog", violations=[], stats={}, nontrivial=False, signature="")
